@@ -42,14 +42,17 @@ RULE = ('instruction x admissible operand types x ALL value combinations from pe
         '2^(8k-1), the mutez limit 2^63, shift counts 255/256/257); big shards: the same product over a magnitude ladder (2^k-1, 2^k and '
         '10^d-1, 10^d around the word, double and decimal-text limits, long byte strings); hist shards: for every operand tuple of a '
         'small alphabet ALL admissible (instruction, operand types) calls consecutively in one process, type order alternating from '
-        'tuple to tuple, then the whole sweep backwards, each call judged; non-trivial = distinct (instr, types, operands) whose '
+        'tuple to tuple, then the whole sweep backwards, each call judged; host shards: every binary call, on the operand pairs the '
+        'reference FAILS on (evenly thinned to a cap) and as many it answers, executed inside the body another instruction runs - an on-chain '
+        'view reached through SELF_ADDRESS ; VIEW (whole script through ContractInterface.interpret), MAP over a list, a LAMBDA run by '
+        'EXEC, an IF branch: must fail / answer exactly as on the bare stack; non-trivial = distinct (instr, types, operands) whose '
         'reference result is not a plain success on small numbers (|operands| > 255, a failure, an option result, bytes)')
 BOUND = {'quick': 'base: boundary sets of 20-48 values per type (<= 2^72), full product; big: 45 ints / 23 nats from 2^128 to 2^16384 and '
                   '10^308..10^4300, 13 byte strings up to 2048 bytes, full product; hist: 22 ints + 9 byte strings + 2 bools, all '
-                  'tuples x all admissible calls, forward and backward',
+                  'tuples x all admissible calls, forward and backward; host: <=7 failing + as many answered pairs per call x 4 hosts',
          'thorough': 'base: boundary sets of ~110 values per type (k<=16), full product; big: 191 ints / 96 nats from 2^96 to 2^32768 '
                      'and 10^19..10^4301, 24 byte strings up to 4096 bytes, full product; hist: 57 ints + 9 byte strings + 2 bools, '
-                     'all tuples x all admissible calls, forward and backward'}
+                     'all tuples x all admissible calls, forward and backward; host: <=25 failing + as many answered pairs per call x 4 hosts'}
 ASSUMPTIONS = ['bytes are big-endian bit strings (Octez Script_bytes): AND truncates to the shorter operand, OR/XOR left-pad the shorter, '
                'LSL grows the result by ceil(n/8) bytes, LSR drops floor(n/8) bytes, shifts above 64000 fail; no Octez vector for these is shipped in the repo',
                'operands longer than 600 decimal digits are placed on the stack with <type>.from_value (no Micheline text), the constructor '
@@ -163,6 +166,7 @@ def calls_for(a, b):
 
 def shards(tier, seed):
     out = [('hist', i, HIST_SHARDS[tier]) for i in range(HIST_SHARDS[tier])]   # first: each sweep starts in a fresh process
+    out += [('host', i, HOST_SHARDS) for i in range(HOST_SHARDS)]
     for fam in ('base', 'big'):
         for p, table in E.ARITH.items():
             for (ta, tb) in table:
@@ -303,10 +307,129 @@ def _judge(r, fam, kind, p, ta, a, tb, b, ctx, before=None):
         r.viol(v[0], _case(kind, p, ta, a, tb, b, before), detail)
 
 
+# ---------------------------------------------------------------- hosted: the instruction inside a body another instruction runs
+HOST_SHARDS = 4
+HOSTS = ('view', 'map-list', 'lambda-exec', 'if-branch')   # MAP on an option is not implemented by pytezos (not C16's subject)
+
+
+def host_pairs(tier, p, ta, tb):
+    """Operand pairs of the base domains for one binary call: every pair the reference FAILS on up to a cap, and as many it answers."""
+    D = domains(tier)
+    bs = D['shift'] if p in ('LSL', 'LSR') else D[tb]
+    cap = 6 if tier == 'quick' else 24
+    fails, oks = [], []
+    for a in D[ta]:
+        for b in bs:
+            ref = ref_eval('bin', p, ta, a, tb, b)
+            (fails if ref[0] == 'fail' else oks).append((a, b, ref))
+    step = max(1, len(fails) // cap)
+    fails = fails[::step][:cap] + fails[-1:]
+    ostep = max(1, len(oks) // max(2, len(fails)))
+    return fails + oks[::ostep][:max(2, len(fails))]
+
+
+def host_run(host, p, ta, a, tb, b):
+    """-> ('ok', value | None=not read) | ('error', ..) | ('crash', ..): `p` applied to (a, b) inside the body run by `host`."""
+    tam, tbm = T.t_to_micheline(ta), T.t_to_micheline(tb)
+    pt = {'prim': 'pair', 'args': [tam, tbm]}
+    pv = {'prim': 'Pair', 'args': [T.v_to_micheline(ta, a), T.v_to_micheline(tb, b)]}
+    ins = {'prim': p}
+    if host == 'view':
+        from pytezos import ContractInterface
+        from pytezos.michelson.micheline import MichelsonRuntimeError
+        unit = {'prim': 'unit'}
+        script = [{'prim': 'parameter', 'args': [unit]}, {'prim': 'storage', 'args': [{'prim': 'option', 'args': [unit]}]},
+                  {'prim': 'code', 'args': [[{'prim': 'DROP'}, {'prim': 'PUSH', 'args': [pt, pv]}, {'prim': 'SELF_ADDRESS'}, {'prim': 'SWAP'},
+                                             {'prim': 'VIEW', 'args': [{'string': 'v'}, unit]}, {'prim': 'NIL', 'args': [{'prim': 'operation'}]},
+                                             {'prim': 'PAIR'}]]},
+                  {'prim': 'view', 'args': [{'string': 'v'}, pt, unit, [{'prim': 'CAR'}, {'prim': 'UNPAIR'}, ins, {'prim': 'DROP'}, {'prim': 'UNIT'}]]}]
+        try:
+            res = ContractInterface.from_micheline(script).default().interpret(storage=None)
+        except MichelsonRuntimeError as e:
+            return ('error', [str(x) for x in e.args][:3])
+        except Exception as e:  # noqa
+            return ('crash', type(e).__name__, str(e)[:200])
+        return ('ok', None) if res.storage is not None else ('none', 'VIEW answered None')
+    from pytezos.michelson.stack import MichelsonStack
+    body = [{'prim': 'UNPAIR'}, ins]
+    if host == 'map-list':
+        code = [{'prim': 'NIL', 'args': [pt]}, {'prim': 'PUSH', 'args': [pt, pv]}, {'prim': 'CONS'}, {'prim': 'MAP', 'args': [body]}]
+    elif host == 'map-option':
+        code = [{'prim': 'PUSH', 'args': [pt, pv]}, {'prim': 'SOME'}, {'prim': 'MAP', 'args': [body]}]
+    elif host == 'if-branch':
+        code = [{'prim': 'PUSH', 'args': [pt, pv]}, {'prim': 'PUSH', 'args': [{'prim': 'bool'}, {'prim': 'True'}]},
+                {'prim': 'IF', 'args': [body, body]}]
+    else:  # lambda-exec: the result type is not needed when the body ends in DROP ; UNIT
+        code = [{'prim': 'LAMBDA', 'args': [pt, {'prim': 'unit'}, body + [{'prim': 'DROP'}, {'prim': 'UNIT'}]]},
+                {'prim': 'PUSH', 'args': [pt, pv]}, {'prim': 'EXEC'}]
+    stack = MichelsonStack([])
+    out = M.run_on_stack(code, stack, M.make_context())
+    if out[0] != 'ok':
+        return out
+    if len(stack.items) != 1:
+        return ('crash', 'stack', f'{len(stack.items)} items left')
+    if host == 'lambda-exec':
+        return ('ok', None)
+    try:
+        v = A.from_impl(stack.items[0])
+    except Exception as e:  # noqa
+        return ('crash', 'unreadable result', f'{type(e).__name__}: {e}')
+    if host == 'map-list':
+        v = v[0] if isinstance(v, (list, tuple)) and len(v) == 1 else ('?', v)
+    elif host == 'map-option':
+        v = v[1] if isinstance(v, tuple) and len(v) == 2 and v[0] == 'Some' else ('?', v)
+    return ('ok', (A.impl_type(stack.items[0]), v))
+
+
+def run_host(spec, tier):
+    _, part, parts = spec
+    r = Result()
+    calls = [(p, ta, tb) for p, table in E.ARITH.items() for (ta, tb) in table]
+    last = None
+    for i, (p, ta, tb) in enumerate(calls):
+        if i % parts != part:
+            continue
+        tys = T.t_str(ta) + ' ' + T.t_str(tb)
+        for a, b, ref in host_pairs(tier, p, ta, tb):
+            for host in HOSTS:
+                r.ev()
+                got = host_run(host, p, ta, a, tb, b)
+                case = {'kind': 'host', 'host': host, 'p': p, 'ta': list(ta), 'a': a, 'tb': list(tb), 'b': b}
+                last = case
+                if ref[0] == 'fail' or nontrivial([a, b], ref):
+                    r.nt(('host', host, p, ta, tb, a, b))
+                r.out(f'host {host}:{_ref_class(ref)}/{got[0]}')
+                v = host_verdict(host, p, tys, a, b, ref, got)
+                if v:
+                    r.viol(v[0], case, v[1])
+                if r.evaluations == 1:
+                    r.sample(case)
+    if last is not None:
+        r.sample(last)
+    return r
+
+
+def host_verdict(host, p, tys, a, b, ref, got):
+    on = f'{p} on {show(a)} {show(b)} inside {host}'
+    if ref[0] == 'fail':
+        if got[0] == 'error':
+            return None
+        return (f'{p} {tys} inside {host}: does not fail on {ref[1]}', f'{on}: {show(got)}')
+    if got[0] != 'ok':
+        return (f'{p} {tys} inside {host}: fails ({got[0]})', f'{on}: {show(got)}, expected {show(ref[1])}')
+    if got[1] is not None and host in ('map-list', 'map-option', 'if-branch'):
+        val = got[1][1] if host != 'if-branch' else got[1][1]
+        if val != ref[1][1]:
+            return (f'{p} {tys} inside {host}: wrong value', f'{on}: got {show(val)}, expected {show(ref[1][1])}')
+    return None
+
+
 # ---------------------------------------------------------------- shards
 def run_shard(spec, tier):
     if spec[0] == 'hist':
         return run_hist(spec, tier)
+    if spec[0] == 'host':
+        return run_host(spec, tier)
     fam, kind, p, ta, tb = spec
     D = domains(tier) if fam == 'base' else big_domains(tier)
     r = Result()
@@ -365,6 +488,10 @@ def _unpack(case):
 def replay(case):
     """Re-runs the earlier calls on the same operands first (history recorded by the hist shards), judging every call."""
     kind, p, ta, a, tb, b = _unpack(case)
+    if kind == 'host':
+        v = host_verdict(case['host'], p, T.t_str(ta) + ' ' + T.t_str(tb), a, b, ref_eval('bin', p, ta, a, tb, b),
+                         host_run(case['host'], p, ta, a, tb, b))
+        return [v] if v else []
     ctx = M.make_context()
     out = []
     for k, q, x, y in case.get('before') or []:
@@ -379,4 +506,6 @@ def replay(case):
 
 def observe(case):
     kind, p, ta, a, tb, b = _unpack(case)
+    if kind == 'host':
+        return host_run(case['host'], p, ta, a, tb, b)
     return impl_eval(kind, p, ta, a, tb, b, None)
